@@ -171,6 +171,10 @@ def handle : List String → String
       | .ok s h => s!"{s},{h}"
       | .missing => "err:missing"
     | _, _, _, _, _ => "bad-op"
+  | ["lt2seq", secs, lt] =>
+    match parseBool? secs, lt.toNat? with
+    | some secs, some lt => toString (lockTimeToSequence secs lt)
+    | _, _ => "bad-op"
   | ["lockactive", s, h, bh, mtp] =>
     match s.toInt?, h.toInt?, bh.toInt?, mtp.toInt? with
     | some s, some h, some bh, some mtp => if sequenceLockActive s h bh mtp then "1" else "0"
